@@ -212,6 +212,25 @@ class Scenario:
         errors = [r for r in (self.capture.records if self.capture else [])]
         exit_zero = self.status is not None and (
             self.status[0] == "returned" or (self.status[0] == "exit" and not self.status[1]))
+        # a service whose run() was started before its constructor had finished: everything
+        # else in such an execution is a consequence of that
+        first_constructed = {}
+        for s, d in constructed:
+            first_constructed.setdefault(d["id"], s)
+        early = [d["kind"] for _s, _n, _w, e, d in log if e == "run-before-init"]
+        if early:
+            return {"violations": [(
+                "service-started-before-its-constructor-finished",
+                "run() of a %s was started by the polling loop before its constructor had "
+                "run (the service unit is registered in __new__)" % early[0])],
+                "outcome": "started-before-constructed"}
+        for service, starts in sorted(runs.items()):
+            if service not in first_constructed or starts[0][0] < first_constructed[service]:
+                return {"violations": [(
+                    "service-started-before-its-constructor-finished",
+                    "run() of service %s was started by the polling loop before its "
+                    "constructor had returned (the service unit is registered in __new__)"
+                    % service)], "outcome": "started-before-constructed"}
         if self.status is None:
             violations.append((
                 "%s:stays-up" % label,
@@ -469,6 +488,13 @@ def _run(ctx, base):
                      "time_jump_cost": None if ctx.quick else 1},
         "budget": 2500 if ctx.quick else 30000,
     } for params in scenario_params(ctx.tier)]
+    # two threads meet in the service registry / the adoption of services: source-line and
+    # loop-iteration granularity for a few valid configurations
+    specs += H.line_variants(
+        specs, lambda p: p["end"] == "sigint" and p["format"] == "yaml"
+        and p["shape"] == ("svc", "decosvc", "pool") and p["forms"] == ("tag", "type")
+        and (not ctx.quick or (p["flavour"] == "asyncio" and not p.get("logging"))),
+        budget=6000)
     items = [("process", params) for params in process_params(ctx.tier)]
     items += [("cosched", spec) for spec in specs]
     ctx.pmap(shard, items, cost=lambda item: 1 if item[0] == "process" else 0)
